@@ -167,7 +167,7 @@ class MirDump:
         ls = self._lines(rel)
         if line - 1 >= len(ls): return (None, None, None)
         text = ' '.join(ls[line - 1:line + 3])
-        m = re.match(r'\s*(?:unsafe )?impl(?:<[^>]*>)?\s+(?:(.+?)\s+for\s+)?([^{]+?)\s*(?:where|\{)', text)
+        m = re.match(r'\s*(?:unsafe )?impl(?:<[^>]*>)?\s+(?:([^{]+?)\s+for\s+)?([^{]+?)\s*(?:where|\{)', text)
         if m:
             tr = m.group(1); ty = m.group(2).strip()
             return (strip_all_generics(ty).replace("&'_ ", '&').strip(), strip_all_generics(tr).strip() if tr else None, tr.strip() if tr else None)
